@@ -175,6 +175,8 @@ MUTANTS["C04"] = [
     ("ros-groupby-first-only", "annet/annlib/tabparser.py", "            else:\n                for row, _, row_context in row_group:\n                    if context and context.row:", "            else:\n                for row, _, row_context in [next(row_group)]:\n                    if context and context.row:"),
     ("ros-join-grandparent-path", "annet/annlib/tabparser.py", "                    if context and context.row:\n                        prev_prow, prev_prow_context = context.current\n                        prow = f\"{context.row} {row}\"", "                    if context and context.parent and context.parent.row:\n                        prev_prow, prev_prow_context = context.parent.current\n                        prow = f\"{context.parent.row} {row}\""),
     ("remove-spaces-eats-leading", "annet/annlib/tabparser.py", 'text = re.sub(r"(?<=\\S)\\ {2,}(?=\\S)", " ", text)', 'text = re.sub(r"\\ {3,}(?=\\S)", " ", text)'),
+    ("cisco-peer-template-own-terminator", "annet/annlib/tabparser.py", '            yield from block_wrapper("exit-address-family")\n        else:', '            yield from block_wrapper("exit-address-family")\n        elif current.startswith("template peer-policy"):\n            yield from block_wrapper("exit-peer-policy")\n        else:'),
+    ("b4com-read-with-the-cisco-formatter", "annet/vendors/library/b4com.py", "        return B4comFormatter(**kwargs)", "        from annet.annlib.tabparser import CiscoFormatter\n        return CiscoFormatter(**kwargs)"),
 ]
 
 MUTANTS["C11"] = [
